@@ -75,22 +75,30 @@ Proof.
   destruct (x_style t) as [st|]; reflexivity.
 Qed.
 
+Lemma centre_tstate_fill t : centre_tstate (fill_text t) = centre_tstate t.
+Proof.
+  unfold centre_tstate, text_font_of, ufs_of, fill_text; cbn [x_style]. unfold fill_style.
+  destruct (x_style t) as [st|]; [destruct (s_text st)|]; reflexivity.
+Qed.
+
 Theorem top_oneline t W H s b i :
   0 <= W -> 0 <= H -> 0 <= b -> x_inv t = false -> tile t W H s b = Ok i ->
-  oneline_ok t W H s b (idata i) (str_width (it i) (x_title t)) (line_height (it i)) (tsh (it i)) = true.
+  oneline_ok t W H s b (idata i) = true.
 Proof.
   intros HW HH Hb Hinv Ht. unfold tile in Ht.
   change (x_inv t) with (x_inv (fill_text t)) in Hinv.
   pose proof (oneline_centred (fill_text t) W H s b i HW HH Hb Hinv Ht) as P.
-  unfold oneline_ok, oneline_applies in *. rewrite plain_mode_fill in P. exact P.
+  unfold oneline_ok, oneline_ok_m, oneline_applies, line_width, line_h, size_step in *.
+  rewrite plain_mode_fill, centre_tstate_fill in P. exact P.
 Qed.
 
 Theorem top_twoline t W H s b i :
   0 <= W -> 0 <= H -> 0 <= b -> x_inv t = false -> tile t W H s b = Ok i ->
-  twoline_ok t W H s b (idata i) (str_width (it i) (x_l1 t)) (str_width (it i) (x_l2 t)) (line_height (it i)) (tsh (it i)) = true.
+  twoline_ok t W H s b (idata i) = true.
 Proof.
   intros HW HH Hb Hinv Ht. unfold tile in Ht.
   change (x_inv t) with (x_inv (fill_text t)) in Hinv.
   pose proof (twoline_centred (fill_text t) W H s b i HW HH Hb Hinv Ht) as P.
-  unfold twoline_ok, twoline_applies in *. rewrite plain_mode_fill in P. exact P.
+  unfold twoline_ok, twoline_ok_m, twoline_applies, line_width, line_h, size_step in *.
+  rewrite plain_mode_fill, centre_tstate_fill in P. exact P.
 Qed.
